@@ -26,6 +26,10 @@ CHECKS = {
  'C18': dict(engine='OidIndex', design='6 (C18)', technique='TLA+ spec OidIndex.tla model-checked with TLC; every exported build history replayed through the real genIndex()/buildIndex(); per-call index snapshots validated by TLC (OidIndexTrace: refinement + property monitor)',
              text='Listed, Cover (component-wise prefix), OnlyDefines, Monotone (action property over consecutive builds), Idempotent as TLC invariants for all histories of index builds over an OID universe whose arcs share decimal digits; the real index after every call is compared with MergeBatch and the formulas are evaluated on it.',
              note='Trusted: TLC, Json module, the projection of the index JSON (harness). Scope: 2-3 modules, 4-7 OIDs, histories of <=3 calls, batches of <=2 modules; identity/enterprise/compliance variants from a fixed set. Idempotence is read as: nothing the index provides changes (sections and cover relation), see DESIGN.md.'),
+
+ 'C13': dict(engine='AtomicWrite', design='6 (C13)', technique='TLA+ spec AtomicWrite.tla (system-call steps, faults, 1-2 interleaved writers) model-checked with TLC; every exported schedule driven through the real FileWriter/PyFileWriter by os/tempfile/py_compile proxies and a deterministic thread scheduler; call+filesystem traces validated by TLC (AtomicWriteTrace)',
+             text='NeverPartial in every state (= every crash point), NoTempLeft, RaisedIsWriterError, RaisedKeeps, DryRunInert as invariants and ReturnedMeansStored as action property, for both writers x every call site x {error, short write} x fresh/existing destination x one or two concurrent writers; the real putData() is executed along each schedule and the snapshot after every call is checked against the spec step and the formulas.',
+             note='Trusted: TLC; the proxies/scheduler in harness/faultfs.py and the classification of file contents (old / complete new / partial). Faults are results of Python-level calls; fsync/power loss not modelled. Quick tier samples 1500 schedules per two-writer slice (seeded), single-writer slices are exhaustive.'),
 }
 PENDING = 'check under construction in this round; will be claimed when its TLA+ spec, replay and trace validation exist'
 
@@ -37,6 +41,7 @@ m = {
            'source_commits': [], 'add_only': True},
  'engines': [{'name': 'MibCompile', 'path': 'specs/MibCompile.tla', 'serves_properties': ['C07', 'C08', 'C09', 'C10', 'C19'],
               'kind_free_text': 'TLA+ state machine of MibCompiler.compile() with lazy environment; MibCompileProps.tla formulas; MibCompileTrace.tla batch trace validation'},
+             {'name': 'AtomicWrite', 'path': 'specs/AtomicWrite.tla', 'serves_properties': ['C13'], 'kind_free_text': 'TLA+ model of putData() as system-call steps with fault injection and two interleaved writers; AtomicWriteTrace.tla'},
              {'name': 'OidIndex', 'path': 'specs/OidIndex.tla', 'serves_properties': ['C18'], 'kind_free_text': 'TLA+ model of the persistent OID->module index and its merge/compaction; OidIndexTrace.tla'}],
  'checks': [], 'not_applicable': [],
  'notes': 'All checks: cwd=/verif, ./check <id> --tier quick|thorough; exit 0 pass, 1 violation (VIOLATION line), 2 machinery failure. known_findings.json lists open findings and fixed: records.',
